@@ -28,12 +28,14 @@ def history(wd, rnd, n_hist, quick):
     pos_map = [0, 1, 2, 255, (1 << 19) - 1, 1 << 19, BIG - 2, BIG - 1]
     sc = []
     members = []
+    written = []
     k = 0
     nxt = 0
     for op in sc0:
         if op["c"] == "reset":
             sc.append({"c": "reset"})
             members = []
+            written = []
             nxt = 0
             # two members; the second history keeps everything low so that appends and the cursor interact
             low = (len([o for o in sc if o["c"] == "reset"]) % 2 == 0)
@@ -63,7 +65,17 @@ def history(wd, rnd, n_hist, quick):
         if "v" in o:
             o["v"] = [0, 1, 2][o["v"]] if o["v"] in (0, 1, 2) else o["v"]
         sc.append(o)
+        if o["c"] == "set" and o.get("v") and o["i"] < BIG:
+            written.append(o["i"])
         k += 1
+        if k % 6 == 3:
+            # the node restarts (persistent builds: flush, drop, re-create on the same location; the others carry on), and a
+            # leaf written BEFORE the restart is removed afterwards
+            sc.append({"c": "restart"})
+            if written:
+                w = written.pop(rnd.randrange(len(written)))
+                sc.append({"c": "delete", "i": w})
+                sc.append({"c": "path", "i": w})
         if k % 4 == 0:
             sc.append({"c": "path", "i": rnd.choice([m[0] for m in members] + [0, min(nxt, BIG - 1), 1 << 19])})
         if k % (5 if quick else 3) == 0:
